@@ -309,6 +309,9 @@ def check(tier):
         else:
             ck.add_mutant(name, m, "massaction/int", "harness.C01", "massaction_job",
                           dict(cases=small_ms, domain="int", routes=["bare"]))
+    # the safe interface passes a rate law through unchanged whenever the reaction's reactants are present (C06 has the converse)
+    for cse in ((1, 1, -3, 3), (2, 1, -2, 2)):
+        ck.add("safe-passes-rate/S%dR%d" % cse[:2], "harness.C06", "safe_job", dict(cases=[cse], aspect="liveness"), max_paths=200000)
     ck.validate = ['derivative', 'expressions']
     ck.run()
     return ck.finish(replay=REPLAY)
